@@ -436,6 +436,13 @@ func (w *world) checkProofGround(c, src *xchain, kind string, ph clienttypes.Hei
 		w.rec.Violate("C02", "unverified_height", kind, "%s accepted with proof height %s that the client of %s never verified", kind, ph, src.Cfg.Name)
 		return
 	}
+	// C07: a proof is honoured only at a stored height that is not above the client's latest height (governance
+	// may have re-anchored the client below heights it verified earlier; what is stored up there is stale)
+	if k := c.clientKind[src.idx]; k == "" || k == "tm" {
+		if cs, ok := c.App.XIBCKeeper.ClientKeeper.GetClientState(c.ReadCtx(), src.Cfg.Name); ok && cs.GetLatestHeight().LT(ph) {
+			w.rec.Violate("C07", "proof_above_latest_height", kind, "%s accepted with a proof at height %s, above the latest height %s of the client of %s", kind, ph, cs.GetLatestHeight(), src.Cfg.Name)
+		}
+	}
 	// C07: a proof is honoured only once the configured delay has passed since the client processed that height
 	if d := w.proofDelay(c, src); d > 0 {
 		w.rec.Probe("proof.accepted_under_delay")
